@@ -451,7 +451,10 @@ impl MerkleTree {
                     (
                         Some(DataHash {
                             index: block.index,
-                            nodes: p.nodes.expect("nodes need to be present"),
+                            nodes: p.nodes.ok_or_else(|| HypercoreError::InvalidOperation {
+                                context: "Could not collect proof nodes for the requested block"
+                                    .to_string(),
+                            })?,
                         }),
                         None,
                     )
@@ -460,7 +463,10 @@ impl MerkleTree {
                         None,
                         Some(DataHash {
                             index: hash.index,
-                            nodes: p.nodes.expect("nodes need to be set"),
+                            nodes: p.nodes.ok_or_else(|| HypercoreError::InvalidOperation {
+                                context: "Could not collect proof nodes for the requested hash"
+                                    .to_string(),
+                            })?,
                         }),
                     )
                 } else {
@@ -480,10 +486,16 @@ impl MerkleTree {
                 Some(DataUpgrade {
                     start: upgrade.start,
                     length: upgrade.length,
-                    nodes: p.upgrade.expect("nodes need to be set"),
+                    nodes: p.upgrade.ok_or_else(|| HypercoreError::InvalidOperation {
+                        context: "Could not collect proof nodes for the requested upgrade"
+                            .to_string(),
+                    })?,
                     additional_nodes: p.additional_upgrade.unwrap_or_default(),
                     signature: signature
-                        .expect("signature needs to be set")
+                        .ok_or_else(|| HypercoreError::InvalidOperation {
+                            context: "No signature available for the requested upgrade"
+                                .to_string(),
+                        })?
                         .to_bytes()
                         .to_vec(),
                 })
